@@ -12,6 +12,7 @@ from __future__ import annotations
 
 import hashlib
 import json
+import math
 import os
 import shutil
 import subprocess
@@ -144,20 +145,61 @@ class RealRunner:
             self.nreq = getattr(self, "nreq", 0) + 1
             prevs = self.__dict__.setdefault("prev_provider", {})
             prev = prevs.get(op["p"]["kind"])
-            if prev is not None and self.nreq % 3 != 0:
+            if prev is not None and self.nreq % 4 != 0:
                 fresh = p
                 diff = {k: getattr(fresh, k) for k in type(fresh).model_fields if getattr(fresh, k) != getattr(prev, k)}
                 try:
-                    if self.nreq % 3 == 1:
+                    if self.nreq % 4 == 1:
                         cand = prev.model_copy(update=diff)
-                    else:
+                    elif self.nreq % 4 == 2:
                         for k, v in diff.items():
                             setattr(prev, k, v)
+                        cand = prev
+                    else:
+                        # the SAME provider object again, edited in place inside its nested values
+                        # (provider.stat.INT += 5, provider.hexa_skill_levels[name] = 17, ...)
+                        for k, v in diff.items():
+                            cur = getattr(prev, k)
+                            if hasattr(cur, "model_fields") and type(cur) is type(v):
+                                for sub in type(cur).model_fields:
+                                    if getattr(cur, sub) != getattr(v, sub):
+                                        setattr(cur, sub, getattr(v, sub))
+                            elif isinstance(cur, dict) and isinstance(v, dict):
+                                cur.clear()
+                                cur.update(v)
+                            else:
+                                setattr(prev, k, v)
                         cand = prev
                     if cand == fresh:
                         p = cand
                 except Exception:  # noqa: BLE001
                     p = fresh
+            # ... and every other request of the star pattern re-uses THE provider object of the previous request to the
+            # same memoizer, edited in place (nested values included) to the new configuration
+            lasts = self.__dict__.setdefault("last_on_handle", {})
+            hkey = json.dumps(op["h"], sort_keys=True)
+            mode_ = (op.get("meta") or {}).get("mode")
+            old = lasts.get(hkey)
+            if old is not None and type(old) is type(p) and mode_ in ("star", "return"):
+                try:
+                    for k in type(p).model_fields:
+                        cur, v = getattr(old, k), getattr(p, k)
+                        if cur == v:
+                            continue
+                        if hasattr(cur, "model_fields") and type(cur) is type(v):
+                            for sub in type(cur).model_fields:
+                                if getattr(cur, sub) != getattr(v, sub):
+                                    setattr(cur, sub, getattr(v, sub))
+                        elif isinstance(cur, dict) and isinstance(v, dict):
+                            cur.clear()
+                            cur.update(v)
+                        else:
+                            setattr(old, k, v)
+                    if old == p:
+                        p = old
+                except Exception:  # noqa: BLE001
+                    pass
+            lasts[hkey] = p
             prevs[op["p"]["kind"]] = p
             captured = {}
             orig = mz.memoize
@@ -177,6 +219,10 @@ class RealRunner:
             finally:
                 del mz.memoize
             if "hit" not in captured:
+                if "ok" in out:
+                    # an answer that did not go through memoize() at all: still an answer, judged against the direct one
+                    return {"kind": "answer", "hit": False, "bypassed_memo": True, "env": out, "key": mz._compute_memo_key(p),
+                            "entry_sha": None, "memo_part": None, "indep_part": None, "want_indep": None}
                 return {"kind": "raised", "msg": out.get("exc", "?")}
             key = mz._compute_memo_key(p)
             text = store().get(key)
@@ -368,6 +414,19 @@ def key_collisions(kind: str, base: dict, fields, rng, profile_names, tries: int
         cands = []
         if isinstance(base.get(f), int) and not isinstance(base.get(f), bool):
             cands = [base[f] + d for d in (5, -5, 1, -1, 2, -2, 3, -3, 4, -4, 10, -10) if base[f] + d >= 0]
+        elif isinstance(base.get(f), float):
+            cands = [base[f] + 4e-7, math.nextafter(base[f], math.inf), base[f] + 1e-3]
+        elif isinstance(base.get(f), dict) and base[f] and all(isinstance(x, (int, float)) and not isinstance(x, bool)
+                                                                for x in base[f].values()):
+            # a block of numbers (stat, action_stat): one of them moved by less than any sensible rounding
+            for name in sorted(base[f])[:6]:
+                for d in (4e-7, 1e-9, 1e-3):
+                    nv = dict(base[f])
+                    nv[name] = float(nv[name]) + d
+                    cands.append(nv)
+                nv = dict(base[f])
+                nv[name] = math.nextafter(float(nv[name]), math.inf)
+                cands.append(nv)
         for _ in range(tries):
             v = alt_value(kind, f, base, rng, profile_names)
             if v is not None:
@@ -935,6 +994,8 @@ def main(ck):
                     samples.append({"provider_kind": kind, "memoizer": mz_kind, "phase": meta["mode"],
                                     "changed_field": meta.get("field"), "hit": r["hit"],
                                     "environment_equal_to_direct": same})
+            if r.get("bypassed_memo"):
+                continue
             # independent part from the current request
             evaluations += 1
             if r["indep_part"] != r["want_indep"]:
